@@ -76,6 +76,9 @@ pub struct K {
     pub sleep_max_intr: u32,
     // --- process
     pub forked: bool,
+    /// 0: fork outcome symbolic; 1: this path is the child; 2: this path is the parent
+    pub fork_force: u8,
+    pub waited: u32,
     pub in_child: bool,
     pub exited: bool,
     pub exit_code: usize,
@@ -113,6 +116,8 @@ pub static mut KS: K = K {
     sleep_done: false,
     sleep_max_intr: 3,
     forked: false,
+    fork_force: 0,
+    waited: 0,
     in_child: false,
     exited: false,
     exit_code: 0,
@@ -209,6 +214,18 @@ impl K {
         if !self.fd_is_open(fd) {
             self.use_after_close += 1;
         }
+    }
+    /// injected failures of this syscall number
+    pub fn count_failed(&self, n: usize) -> usize {
+        let mut c = 0;
+        let mut i = 0;
+        while i < LOG && i < self.calls {
+            if self.log[i].nr == n && self.log[i].failed {
+                c += 1;
+            }
+            i += 1;
+        }
+        c
     }
     /// calls (by index) with this syscall number
     pub fn count_nr(&self, n: usize) -> usize {
@@ -390,9 +407,17 @@ unsafe fn model(k: &mut K, n: usize, a: &[usize; 6]) -> usize {
             k.touch_fd(a[0]);
             0
         }
+        nr::WAIT4 => {
+            let st = a[1] as *mut i32;
+            if !st.is_null() {
+                *st = kani::any();
+            }
+            k.waited += 1;
+            if (a[0] as i32) > 0 { a[0] } else { 4242 }
+        }
         nr::FORK | nr::VFORK => {
             // 0 = this path continues as the child, > 0 = the parent with the child's pid
-            let child: bool = kani::any();
+            let child: bool = if k.fork_force == 0 { kani::any() } else { k.fork_force == 1 };
             k.forked = true;
             k.in_child = child;
             if child { 0 } else { 4242 }
